@@ -389,6 +389,7 @@ type DrvRec struct {
 	Ev    string  `json:"ev"`
 	ID    int     `json:"id"`
 	Msgs  []hx.B  `json:"msgs"`
+	Par   int     `json:"par"`   // > 1: the messages are sent by that many goroutines concurrently (round robin): order free, lines must stay whole
 	Lines []hx.B  `json:"lines"` // one entry per line, characters incl. the terminator
 	Got   []hx.B  `json:"got"`
 	GotTs []int32 `json:"gotts"`
@@ -421,11 +422,33 @@ func runDrv(rec *DrvRec) {
 				panic(err)
 			}
 			m.settle()
-			for _, b := range rec.Msgs {
-				if err := m.out.Send(b); err != nil {
-					panic(err)
+			if rec.Par > 1 {
+				var wg sync.WaitGroup
+				var serr atomic.Value
+				for g := 0; g < rec.Par; g++ {
+					wg.Add(1)
+					go func(g int) {
+						defer wg.Done()
+						for i := g; i < len(rec.Msgs); i += rec.Par {
+							if err := m.out.Send(rec.Msgs[i]); err != nil {
+								serr.Store(err)
+								return
+							}
+							atomic.AddInt64(&m.sentOK, 1)
+						}
+					}(g)
 				}
-				atomic.AddInt64(&m.sentOK, 1)
+				wg.Wait()
+				if e := serr.Load(); e != nil {
+					panic(e)
+				}
+			} else {
+				for _, b := range rec.Msgs {
+					if err := m.out.Send(b); err != nil {
+						panic(err)
+					}
+					atomic.AddInt64(&m.sentOK, 1)
+				}
 			}
 			m.settle()
 			stop()
@@ -532,6 +555,9 @@ func main() {
 					}
 				}
 				rec.Msgs = append(rec.Msgs, b)
+			}
+			if i%3 == 2 {
+				rec.Par = 2 + r.Intn(3)
 			}
 			runDrv(rec)
 			w.Put(rec)
